@@ -5,73 +5,121 @@ import (
 	"fmt"
 	"os"
 	"sort"
+	"strconv"
 	"strings"
+	"time"
 )
 
 func main() {
 	if len(os.Args) < 2 {
-		fmt.Fprintln(os.Stderr, "usage: govc <verify|check|...> [flags]")
+		fmt.Fprintln(os.Stderr, "usage: govc <check|ledger|verify> [flags]")
 		os.Exit(2)
 	}
 	switch os.Args[1] {
-	case "verify":
-		cmdVerify(os.Args[2:])
+	case "verify", "check", "ledger":
+		os.Exit(cmdCheck(os.Args[1], os.Args[2:]))
 	default:
 		fmt.Fprintln(os.Stderr, "unknown command", os.Args[1])
 		os.Exit(2)
 	}
 }
 
-func cmdVerify(args []string) {
-	fs := flag.NewFlagSet("verify", flag.ExitOnError)
+// extraEngines: property-specific obligation generators beyond function contracts
+// (census, schematic sweeps, frame checker, relational). Filled in by other files.
+var extraEngines = map[string][]func(w *World, r *Report) []*Obligation{}
+
+func cmdCheck(mode string, args []string) int {
+	fs := flag.NewFlagSet(mode, flag.ExitOnError)
 	prop := fs.String("prop", "", "property id")
 	repo := fs.String("repo", "/repo/v3", "module dir")
 	verif := fs.String("verif", "/verif", "verif dir")
-	timeout := fs.Int("timeout", 10, "per-obligation timeout (s)")
-	keep := fs.String("out", "/tmp/govc-out", "query dir")
-	only := fs.String("only", "", "substring filter on obligation names")
+	tier := fs.String("tier", "quick", "quick | thorough")
+	timeout := fs.Int("timeout", 0, "per-obligation timeout (s); default 10 quick / 60 thorough")
+	out := fs.String("out", "", "query dir (default: a temp dir removed afterwards)")
+	only := fs.String("only", "", "substring filter on obligation names (verify mode)")
 	verbose := fs.Bool("v", false, "verbose")
 	fs.Parse(args)
+	if t := os.Getenv("VERIF_TIER"); t != "" && *tier == "quick" {
+		*tier = t
+	}
+	seed, _ := strconv.Atoi(os.Getenv("VERIF_SEED"))
+	if *timeout == 0 {
+		*timeout = 10
+		if *tier == "thorough" {
+			*timeout = 60
+		}
+	}
+	start := time.Now()
 	w, err := LoadWorld(*repo, *verif)
 	if err != nil {
-		fmt.Fprintln(os.Stderr, err)
-		os.Exit(2)
+		fmt.Fprintln(os.Stderr, "govc: cannot load the module:", err)
+		if mode == "check" {
+			// the tree does not compile: no property can be decided
+			fmt.Printf("ERROR property=%s the working tree does not build\n", *prop)
+		}
+		return 2
 	}
+	r := &Report{Prop: *prop, Tier: *tier, Seed: seed, Start: start, Extra: map[string]any{}}
+	r.CheckerCmd = fmt.Sprintf("/verif/bin/govc check -prop %s -tier %s  (VC generation from go/ssa of /repo/v3 with -tags verif; back ends z3-new 5.1.0 | z3 4.8.12 | cvc5 1.0, first definite answer wins)", *prop, *tier)
 	us := w.UnitsFor(*prop)
+	r.Units = us
 	var obls []*Obligation
 	for _, u := range us {
+		r.Functions = append(r.Functions, u.Name)
 		for _, o := range u.obls {
 			if *only == "" || strings.Contains(o.Name, *only) {
 				obls = append(obls, o)
 			}
 		}
 	}
-	for _, e := range w.errors {
-		fmt.Println("ERROR:", e)
+	qdir := *out
+	if qdir == "" {
+		qdir, _ = os.MkdirTemp("", "govc-q-")
+		defer os.RemoveAll(qdir)
 	}
-	SolveAll(obls, *keep, *timeout, false, 8)
-	sort.SliceStable(obls, func(i, j int) bool { return obls[i].Name < obls[j].Name })
-	bad := 0
-	for _, o := range obls {
-		if o.Status != "proved" {
-			bad++
+	SolveAll(obls, qdir, *timeout, *tier == "thorough", 8)
+	for _, eng := range extraEngines[*prop] {
+		obls = append(obls, eng(w, r)...)
+	}
+	r.Obls = obls
+	r.Errors = w.errors
+	if mode == "verify" {
+		sort.SliceStable(obls, func(i, j int) bool { return obls[i].Name < obls[j].Name })
+		bad := 0
+		for _, e := range w.errors {
+			fmt.Println("ERROR:", e)
 		}
-		if *verbose || o.Status != "proved" {
-			fmt.Printf("%-8s %-60s %-7s %.2fs %s  -- %s\n", o.Status, o.Name, o.Solver, o.Time, o.Src, clipText(o.Note))
+		for _, o := range obls {
 			if o.Status != "proved" {
-				fmt.Println("   ", clipText(strings.ReplaceAll(o.Output, "\n", " ")))
+				bad++
+			}
+			if *verbose || o.Status != "proved" {
+				fmt.Printf("%-8s %-60s %-7s %.2fs %s  -- %s\n", o.Status, o.Name, o.Solver, o.Time, o.Src, clipText(o.Note))
+				if o.Status != "proved" {
+					fmt.Println("   ", clipText(strings.ReplaceAll(o.Output, "\n", " ")))
+				}
 			}
 		}
-	}
-	for _, u := range us {
 		if *verbose {
-			for n := range u.notes {
-				fmt.Println("note:", u.Name, n)
-			}
-			for n := range u.trusted {
-				fmt.Println("trusted:", u.Name, n)
+			for _, u := range us {
+				for n := range u.notes {
+					fmt.Println("note:", u.Name, n)
+				}
+				for n := range u.trusted {
+					fmt.Println("trusted:", u.Name, n)
+				}
 			}
 		}
+		fmt.Printf("%d obligations, %d not proved, %d spec errors (%.1fs)\n", len(obls), bad, len(w.errors), time.Since(start).Seconds())
+		return 0
 	}
-	fmt.Printf("%d obligations, %d not proved, %d spec errors\n", len(obls), bad, len(w.errors))
+	if mode == "ledger" {
+		for _, e := range w.errors {
+			fmt.Println("ERROR:", e)
+		}
+		WriteLedger(*verif, *prop, obls)
+		return 0
+	}
+	rp := &Replayer{W: w, Verif: *verif}
+	return r.Decide(*verif, rp.Replay)
 }
